@@ -20,7 +20,7 @@ from ..cfg import CFG
 from ..loader import AnalysisError, Repo
 from ..report import Check
 from ..shape import bind_call, names_in, normalise, param_flows_to_return
-from .ds_common import ASDU, MACFN, branch_defs, branch_stmts, sides
+from .ds_common import ASDU, MACFN, branch_defs, branch_stmts, scf_roundtrip, sides
 
 DS = "xknx.secure.data_secure"
 
@@ -106,6 +106,12 @@ def run(chk: Check, repo: Repo) -> None:
     for p, want_t in exp.items():
         chk.ob("receiver-feeds-frame-fields", rc.site(cr[0]), kr.get(p) == want_t, f"get_plain_apdu({p}={kr.get(p)}); the received frame's field `{want_t}` is required", key=f"feed|{p}")
     chk.ob("receiver-feeds-frame-fields", rc.site(cr[0]), ast.unparse(cr[0].func.value) == f"{sapdu}.secured_data", "verification runs on the received ASDU", key="feed|asdu")
+    # (b'') the SCF that enters the MAC is the re-serialised parsed field: parsing must not drop bits
+    scf_roundtrip(chk, repo)
+    sa = repo.func("xknx.telegram.apci", "SecureAPDU.from_knx")
+    chk.unit(sa)
+    okp = any(call_name(c) == "SecurityControlField.from_knx" and ast.unparse(c.args[0]).endswith("[2]") for c in calls(sa.node)) and any(call_name(c) == "SecureData.from_knx" and ast.unparse(c.args[0]).endswith("[3:]") for c in calls(sa.node))
+    chk.ob("secure-apdu-layout", sa.site(), okp, "SecureAPDU.from_knx takes the SCF from octet 2 and the ASDU from octet 3 on", key="secure-apdu-layout")
     # (c) unprotected control bits do not influence acceptance
     reads: set[str] = set()
     for f in repo.all_functions():
